@@ -399,7 +399,7 @@ class Insn(Item):
         if mn == 'lr.w' or (not mn.startswith('c.') and apimap.rvref.fmt_of(mn) == 'A'):
             parts = [r(o[n]) for n in names if n not in ('aq', 'rl')]
             if o.get('aq', 0) or o.get('rl', 0) or st.pick(3, 'aqrl') == 0:
-                parts += [str(o.get('aq', 0)), str(o.get('rl', 0))]
+                parts += [st.integer(o.get('aq', 0)), st.integer(o.get('rl', 0))]
             return st.line(mn, parts)
         bo = {'lb': ('rd', 'imm', 'rs1'), 'lh': ('rd', 'imm', 'rs1'), 'lw': ('rd', 'imm', 'rs1'),
               'lbu': ('rd', 'imm', 'rs1'), 'lhu': ('rd', 'imm', 'rs1'), 'jalr': ('rd', 'imm', 'rs1'),
@@ -694,8 +694,8 @@ class Style:
 NO_TRAILING_COMMENT = ('str', 'gap', 'incbytes', 'raw')
 # comment texts: anything may follow the '#', in particular characters that mean something elsewhere on a line
 WHOLE_COMMENTS = ['# note', '# x1, x2', '# string hello', '# L: addi', "# it's (paren", "#'quoted'", '#', '##', '#,', '# K = 5', '#:', '#\t tab',
-                  '# error no', '#include x', '# 0x10 )', '#"dq"', "# '#'", '#=', '# C:\\chips\\gd32\\', '#\\']
-TRAIL_COMMENTS = ['  # trailing', ' #x', '\t# a, b (c)', '#tight', " #'spin'", " # it's", ' ##', ' #,', ' # )', ' #(', ' # 1 + 2', ' #:', " #'", ' # = 4', ' # dir\\', ' #\\']
+                  '# error no', '#include x', '# 0x10 )', '#"dq"', "# '#'", '#=', '# C:\\chips\\gd32\\', '#\\', "# split on '\\s'", "#'\\x' '\\u'"]
+TRAIL_COMMENTS = ['  # trailing', ' #x', '\t# a, b (c)', '#tight', " #'spin'", " # it's", ' ##', ' #,', ' # )', ' #(', ' # 1 + 2', ' #:', " #'", ' # = 4', ' # dir\\', ' #\\', " # '\\d' digits", " #'\\N'"]
 
 
 def render(items, style=None):
